@@ -923,7 +923,7 @@ class Folder:
                     return opt(None, False)
                 return opt(_loaded(v.pop(0)) if False else v.pop(0))
             return NotImplemented
-        if last in ("index", "index_mut") and ("ops::Index" in cc or "ops::index" in cc) and len(a) == 2:
+        if last in ("index", "index_mut") and ("ops::Index" in cc or "ops::index" in cc or cc.startswith("core::slice::index") or "slice::index" in cc or cc.startswith("arrayvec::")) and len(a) == 2:
             v = _loaded(self.fold(a[0]))
             i = self.fold(a[1])
             if isinstance(v, list) and isinstance(i, int) and not isinstance(i, bool):
@@ -1873,6 +1873,13 @@ def _counting_loops(out):
                     it = ("adt", "core::ops::Range", "Range", (("start", rng[1]), ("end", rng[2])))
                     res.append(("for", rng[0], it, body[:-1], st[2]))
                     done = True
+            # `let mut it = X; while let Some(p) = it.next() { body }` is `for p in X { body }` when `it` is used nowhere else
+            if not done and isinstance(cond, tuple) and cond[0] == "iflet" and cond[3] == "Some" and cond[1][0] == "call" and cond[1][1].endswith("::next") and "Iterator" in cond[1][1] \
+                    and len(cond[1][2]) == 1 and cond[1][2][0][0] == "var" and res and res[-1][0] == "let" and res[-1][2] \
+                    and res[-1][1].split("#")[0] == cond[1][2][0][1] and _count_var(body, cond[1][2][0][2]) == 0 and not _outer_continue([]):
+                src = res.pop()[3]
+                res.append(("for", list(cond[2]), src, body, st[2]))
+                done = True
         if not done:
             res.append(st)
     return res
